@@ -197,6 +197,7 @@ def vh(args, stdin_path=None, stdout_path=None, timeout=3600, check=True, env=No
     is reported to the caller through returncode; callers treat it as data when the code under
     test caused it."""
     build_harness()
+    t0 = time.time()
     fin = open(stdin_path, "rb") if stdin_path else subprocess.DEVNULL
     fout = open(stdout_path, "wb") if stdout_path else subprocess.PIPE
     e = dict(os.environ)
@@ -216,6 +217,7 @@ def vh(args, stdin_path=None, stdout_path=None, timeout=3600, check=True, env=No
     if check and p.returncode != 0:
         log(p.stderr.decode(errors="replace")[-4000:])
         raise ToolError(f"harness failed rc={p.returncode}: vh {' '.join(map(str,args))}")
+    log(f"[vh] {args[0]} {time.time()-t0:.1f}s")
     return p
 
 
@@ -235,7 +237,7 @@ class TlcResult:
         self.error = None  # tool-level problem text
 
 
-_COV_RE = re.compile(r"^<(\w+) line (\d+), col \d+ to line \d+, col \d+ of module (\w+)>: (\d+):(\d+)")
+_COV_RE = re.compile(r"^<(\w+) line (\d+), col \d+ to line \d+, col \d+ of module (\w+)(?: \([\d ]+\))?>: (\d+):(\d+)")
 
 
 def tlc_run(module, cfg=None, workers=4, env=None, args=(), timeout=1800, cwd=None,
@@ -509,6 +511,7 @@ def validate_calls(ctx, module, cfg, path, parts=None, env=None, timeout=3600, x
     """Binding F.  `path` holds independent call events, one per line.  The trace spec consumes
     every line and prints <<"VERDICT", json>> with field l (1-based line within its chunk) for each
     event it does not accept.  Returns (n_events, [(event, verdict), ...])."""
+    t0 = time.time()
     n = count_lines(path)
     if n == 0:
         raise ToolError(f"no events recorded in {path}")
@@ -524,6 +527,7 @@ def validate_calls(ctx, module, cfg, path, parts=None, env=None, timeout=3600, x
             lines = Path(cpath).read_text().splitlines()
             for verdict in v.verdicts:
                 bad.append((json.loads(lines[verdict["l"] - 1]), verdict))
+    log(f"[tlc] {module}: {n} call events validated in {time.time()-t0:.1f}s, {len(bad)} not accepted")
     return n, bad
 
 
@@ -531,6 +535,7 @@ def validate_traces(ctx, module, cfg, path, parts=None, env=None, max_reject=12,
     """Binding T.  `path` holds traces separated by {"ev":"reset"} events (each trace starts with
     one).  Returns (n_traces, n_events, rejections) where a rejection is
     {"events": [...the whole trace...], "at": index of the first unmatched event in it}."""
+    t0 = time.time()
     lines = Path(path).read_bytes().splitlines(keepends=True)
     if not lines:
         raise ToolError(f"no events recorded in {path}")
@@ -559,6 +564,13 @@ def validate_traces(ctx, module, cfg, path, parts=None, env=None, max_reject=12,
         nxt = []
         for (a, b), v in zip(chunks, vs):
             if v.accepted:
+                # specs with a skip-to-next-reset step report unmatched lines as VERDICTs
+                for verdict in v.verdicts:
+                    bad_line = a + verdict["l"] - 1
+                    ti = max(i for i, s in enumerate(starts) if s <= bad_line)
+                    ta, tb = bounds[ti], bounds[ti + 1]
+                    rejections.append({"events": [json.loads(x) for x in lines[ta:tb]],
+                                       "at": bad_line - ta, "unmatched": json.loads(lines[bad_line])})
                 continue
             bad_line = a + v.matched  # 0-based index of first unmatched line
             # enclosing trace
@@ -573,4 +585,34 @@ def validate_traces(ctx, module, cfg, path, parts=None, env=None, max_reject=12,
                 nxt.append((tb, b))
         chunks = nxt
         rnd += 1
+    log(f"[tlc] {module}: {ntr} traces / {len(lines)} events validated in {time.time()-t0:.1f}s, "
+        f"{len(rejections)} rejected")
     return ntr, len(lines), rejections
+
+
+def judge_rejections(ctx, rejections, module, dev_cfgs, describe, cap=5):
+    """Traces rejected by the strict spec are re-validated with each recorded deviation enabled.
+    Accepted with a deviation -> KNOWN-FINDING under that key; rejected by all -> VIOLATION."""
+    left = list(rejections)
+    for k, cfg in dev_cfgs.items():
+        if not left or not ctx.finding_for(k):
+            continue
+        p = ctx.work / f"rejected-{k}.ndjson"
+        with open(p, "w") as f:
+            for r in left:
+                for e in r["events"]:
+                    f.write(json.dumps(e, separators=(",", ":")) + "\n")
+        _, _, still = validate_traces(ctx, module, cfg, p)
+        bad_programs = {json.dumps(r["events"][0], sort_keys=True) for r in still}
+        nxt = []
+        for r in left:
+            if json.dumps(r["events"][0], sort_keys=True) in bad_programs:
+                nxt.append(r)
+            else:
+                ctx.known_finding(k)
+        left = nxt
+    for r in left[:cap]:
+        ctx.violation(describe(r), {"part": "trace", "at": r["at"], "unmatched": r["unmatched"],
+                                    "events": r["events"][:400], "program": r["events"][0].get("program")})
+    for r in left[cap:]:
+        ctx.violations.append((describe(r), ""))
